@@ -297,3 +297,43 @@ Example C05_conforms_ts_needs_buildable :
   to_json Ex tss (q "StampList") m = ROk (JObj [(s "ats", JArr [JNum 5])]).
 Proof. exact conforms_ts_needs_buildable. Qed.
 Print Assumptions C05_conforms_ts_needs_buildable.
+
+(* ---- C05_conforms for the empty_behavior codec in general: a top-level message whose only annotations are
+   empty_behavior fields (PRESERVE / NULL / OMIT), with un-annotated children, is sent exactly as the documented
+   mapping says, for every well-typed value *)
+From SebufProofs Require Import EmptyFacts EmptyConforms.
+Theorem C05_conforms_empty_partial : forall E sc tn md m,
+  str_eqb tn ts_name = false -> is_wkt_other tn = false ->
+  find_message (all_messages sc) tn = Some md -> owner_of sc md = Own FtEmpty ->
+  buildable sc FtEmpty md = true ->
+  nodup_str (map jn (m_fields md)) = true ->
+  empplain_msg md = true ->
+  wt sc (KMessage tn) (FM m) = true ->
+  forallb (fun e => match find_field (m_fields md) (fst e) with
+                    | Some f => plain_in sc (f_kind f) (snd e)
+                    | None => false end) m = true ->
+  encode E sc tn m = to_json E sc tn m.
+Proof. exact EmptyConforms.conforms_empty. Qed.
+Print Assumptions C05_conforms_empty_partial.
+
+(* a list naming a field twice is not a message value (wt excludes it); on it Impl and Spec differ *)
+Example C05_conforms_empty_needs_wt :
+  let m := [(s "nul_it", FM []); (s "nul_it", FM [(s "a", vstr "z")])] in
+  wt xs (KMessage (q "Emp")) (FM m) = false /\
+  encode Ex xs (q "Emp") m = ROk (JObj [(s "nulIt", JNull); (s "nulIt", JNull)]) /\
+  to_json Ex xs (q "Emp") m = ROk (JObj [(s "nulIt", JNull); (s "nulIt", JObj [(s "a", JStr (s "z"))])]).
+Proof. exact EmptyConforms.conforms_empty_needs_wt. Qed.
+
+Example C05_empty_nonvacuous :
+  let md := emp3_md in
+  let m := [(s "keep_it", FM [(s "a", vstr "k")]); (s "nul_it", FM [(s "n", vint 7)]); (s "omit_it", FM [(s "a", vstr "o")]);
+            (s "omit_at", tsv 5 0); (s "plain_leaf", FM [])] in
+  let j := JObj [(s "keepIt", JObj [(s "a", JStr (s "k"))]); (s "nulIt", JObj [(s "n", JStr (s "7"))]);
+                 (s "omitIt", JObj [(s "a", JStr (s "o"))]); (s "omitAt", JStr (s "1970-01-01T00:00:05Z"));
+                 (s "plainLeaf", JObj [])] in
+  wt ebs (KMessage (q "Emp3")) (FM m) = true /\ epoch_null_free md m = true /\
+  forallb (fun e => match find_field (m_fields md) (fst e) with
+                    | Some f => plain_in ebs (f_kind f) (snd e) | None => false end) m = true /\
+  norm ebs (q "Emp3") m = m /\
+  encode Ex ebs (q "Emp3") m = ROk j /\ to_json Ex ebs (q "Emp3") m = ROk j /\ decode Ex ebs (q "Emp3") j = ROk m.
+Proof. exact EmptyConforms.empty_nonvacuous_nonempty. Qed.
